@@ -289,6 +289,14 @@ func c12CoreCases(r *Run, rng *Rng, gen *c12Gen, n int) {
 				c.Path = base
 			}
 		}
+		if c.Op == "fieldspec" && !c12FieldspecInDomain(c.Doc) {
+			// fieldspec.Filter wraps errors with resid.FromRNode(obj) and reads kind/apiVersion through
+			// isMatchGVK: both are outside the fs_filter model when the root is not a mapping or
+			// metadata is not a mapping (same restriction as the C14 correspondence)
+			r.Meta.Skipped++
+			r.Count("core_skipped", "fieldspec-root-or-metadata-not-a-mapping")
+			continue
+		}
 		res, _ := c12CoreExec(c)
 		if res.Outcome == "parse-error" {
 			r.Meta.Skipped++
@@ -323,4 +331,22 @@ func firstN(l []string, n int) []string {
 		return l[:n]
 	}
 	return l
+}
+
+// c12FieldspecInDomain: the document root is a mapping and metadata, when present, is a mapping or null.
+func c12FieldspecInDomain(docText string) bool {
+	doc, err := kyaml.Parse(docText)
+	if err != nil || doc.YNode() == nil || doc.YNode().Kind != kyaml.MappingNode {
+		return false
+	}
+	y := doc.YNode()
+	for i := 0; i+1 < len(y.Content); i += 2 {
+		if y.Content[i].Value == "metadata" {
+			v := y.Content[i+1]
+			if v.Kind != kyaml.MappingNode && v.Tag != kyaml.NodeTagNull {
+				return false
+			}
+		}
+	}
+	return true
 }
